@@ -622,3 +622,137 @@ Proof.
         unfold wf_rec, clear_flags; cbn [cfg_now c_sticky r_c r_dirty negb andb]. exact S3.
     + destruct cond as [[op v]|]; [|discriminate]. rewrite Ec in D. discriminate.
 Qed.
+
+(* ---- the step ---- *)
+Lemma count_abs (s : srv) : forall l acc,
+  (fix go (l : list Z) (acc : list (Z * Z * bool)) : sstate * response :=
+     match l with
+     | [] => (abs s, RCount (rev acc))
+     | sw :: t =>
+         match s_check (abs s) sw true with
+         | Some e => (abs s, RErr e)
+         | None => go t ((sw, Z.of_nat (length (s_summon (abs s) sw)), true) :: acc)
+         end
+     end) l acc
+  = (abs s, snd ((fix go (l : list Z) (acc : list (Z * Z * bool)) : srv * response :=
+     match l with
+     | [] => (s, RCount (rev acc))
+     | sw :: t =>
+         match check_name s sw true with
+         | Some e => (s, RErr e)
+         | None => go t ((sw, Z.of_nat (length (recs (summon s sw))), true) :: acc)
+         end
+     end) l acc))
+  /\ fst ((fix go (l : list Z) (acc : list (Z * Z * bool)) : srv * response :=
+     match l with
+     | [] => (s, RCount (rev acc))
+     | sw :: t =>
+         match check_name s sw true with
+         | Some e => (s, RErr e)
+         | None => go t ((sw, Z.of_nat (length (recs (summon s sw))), true) :: acc)
+         end
+     end) l acc) = s.
+Proof.
+  induction l as [|sw t IH]; intros acc; [split; reflexivity|].
+  rewrite check_abs. destruct (check_name s sw true); [split; reflexivity|].
+  rewrite summon_abs. unfold abs_swamp at 1. rewrite length_amap. apply IH.
+Qed.
+
+Lemma size_abs r : wf_rec r = true ->
+  match sl_size r with Some n => RSize n | None => RErr EFailedPre end =
+  match s_val (abs_rec r) with SSl l => RSize (Z.of_nat (length l)) | _ => RErr EFailedPre end.
+Proof. intros H. destruct (wf_rec_cases r H) as [m [->|[(t & z & ->)|(l & ->)]]]; reflexivity. Qed.
+Lemma isval_abs r v : wf_rec r = true ->
+  zmem v (sl_all r) = match s_val (abs_rec r) with SSl l => zmem v l | _ => false end.
+Proof. intros H. destruct (wf_rec_cases r H) as [m [->|[(t & z & ->)|(l & ->)]]]; reflexivity. Qed.
+
+Theorem step_sim s q :
+  wf s = true -> disc (abs s) q = 0 ->
+  let '(s', r) := api_step cfg_now s q in
+  spec_step (abs s) q = (abs s', r) /\ wf s' = true.
+Proof.
+  intros Hwf D. destruct q; cbn [api_step spec_step disc] in *.
+  - (* Set *)
+    unfold do_set. rewrite check_abs, exists_abs in *. unfold check_name in *.
+    destruct (sw =? 0) eqn:E0; [split; [reflexivity|exact Hwf]|].
+    destruct (false && negb (exists_sw s sw)); [split; [reflexivity|exact Hwf]|].
+    destruct kvs as [its|]; [|split; [reflexivity|exact Hwf]].
+    cbn [set_err cfg_now c_dupset].
+    destruct (negb create && negb over); [split; [reflexivity|exact Hwf]|].
+    destruct (negb create && negb (exists_sw s sw)); [split; [reflexivity|exact Hwf]|].
+    rewrite summon_abs in *.
+    pose proof (set_items_sim create over its (summon s sw) (wf_summon s sw Hwf) D) as H.
+    destruct (set_items cfg_now create over (summon s sw) its) as [x os]. destruct H as [H1 H2].
+    rewrite H1, commit_abs. split; [reflexivity|apply wf_commit; assumption].
+  - (* Get *)
+    unfold do_get. rewrite <- get_validate_abs.
+    destruct (get_validate cfg_now s _ l); [split; [reflexivity|exact Hwf]|].
+    split; [|exact Hwf]. f_equal. f_equal. apply map_ext. intros [sw ks]; cbn [fst snd].
+    unfold abs. rewrite aget_amap. destruct (aget sw s); cbn; [|reflexivity]. rewrite get_views_abs. reflexivity.
+  - (* GetAll *)
+    rewrite check_abs. destruct (check_name s sw true); [split; [reflexivity|exact Hwf]|].
+    rewrite summon_abs, all_views_abs. split; [reflexivity|exact Hwf].
+  - (* GetByKeys *)
+    rewrite check_abs. destruct (check_name s sw true); [split; [reflexivity|exact Hwf]|].
+    rewrite summon_abs, views_of_keys_abs. split; [reflexivity|exact Hwf].
+  - (* Delete *)
+    rewrite check_abs. destruct (check_name s sw true); [split; [reflexivity|exact Hwf]|].
+    rewrite summon_abs.
+    pose proof (del_keys_abs keys (summon s sw) true (wf_summon s sw Hwf)) as H.
+    destruct (del_keys (summon s sw) true keys) as [[x a] os]. destruct H as [H1 H2].
+    rewrite H1, commit_abs. split; [reflexivity|apply wf_commit; assumption].
+  - (* Count *)
+    destruct (count_abs s sws []) as [H1 H2]. rewrite H1.
+    destruct ((fix go (l : list Z) (acc : list (Z * Z * bool)) : srv * response := _) sws []) as [s' r].
+    cbn [fst snd] in *. subst s'. split; [reflexivity|exact Hwf].
+  - (* IsSwampExist *)
+    rewrite check_abs. destruct (check_name s sw true) as [[| |]|]; split; try reflexivity; exact Hwf.
+  - (* IsKeyExist *)
+    rewrite check_abs. destruct (check_name s sw true); [split; [reflexivity|exact Hwf]|].
+    rewrite summon_abs, ahas_abs_swamp. split; [reflexivity|exact Hwf].
+  - (* AreKeysExist *)
+    rewrite check_abs. destruct (check_name s sw true); [split; [reflexivity|exact Hwf]|].
+    rewrite summon_abs. split; [|exact Hwf]. f_equal. f_equal. apply map_ext. intros k. rewrite ahas_abs_swamp. reflexivity.
+  - (* ShiftByKeys *)
+    rewrite check_abs. destruct (check_name s sw true); [split; [reflexivity|exact Hwf]|].
+    destruct keys as [|k0 keys]; [split; [reflexivity|exact Hwf]|].
+    rewrite summon_abs.
+    pose proof (shift_keys_abs (k0 :: keys) (summon s sw) (wf_summon s sw Hwf)) as H.
+    destruct (shift_keys (summon s sw) (k0 :: keys)) as [x vs]. destruct H as [H1 H2].
+    rewrite H1, commit_abs. unfold abs_swamp at 2. rewrite nil_match_abs.
+    split; [reflexivity|apply wf_commit; assumption].
+  - (* Increment *)
+    destruct (sw =? 0) eqn:E0; [split; [reflexivity|exact Hwf]|].
+    destruct ((by_ =? 0) || negb (numeric t)) eqn:E1; [split; [reflexivity|exact Hwf]|].
+    cbn [orb] in D. rewrite E1 in D. rewrite summon_abs in *.
+    pose proof (inc_sim (summon s sw) t k by_ cond ne e (wf_summon s sw Hwf) D) as H.
+    destruct (do_inc_swamp cfg_now (summon s sw) t k by_ cond ne e) as [x r]. destruct H as [H1 H2].
+    rewrite H1, commit_abs. split; [reflexivity|apply wf_commit; assumption].
+  - (* Push *)
+    rewrite check_abs. unfold check_name in *. destruct (sw =? 0) eqn:E0; [split; [reflexivity|exact Hwf]|].
+    cbn [andb]. rewrite summon_abs in *.
+    destruct (push_pairs_sim pairs (summon s sw) (wf_summon s sw Hwf) D) as [H1 H2].
+    rewrite H1, commit_abs. split; [reflexivity|apply wf_commit; assumption].
+  - (* SliceDelete *)
+    rewrite check_abs. unfold check_name in *. destruct (sw =? 0) eqn:E0; [split; [reflexivity|exact Hwf]|].
+    cbn [andb]. rewrite summon_abs in *.
+    pose proof (sldel_pairs_sim pairs (summon s sw) true (wf_summon s sw Hwf) D) as H.
+    pose proof (sldel_never_hangs pairs (summon s sw) true) as Hh.
+    destruct (sldel_pairs cfg_now (summon s sw) true pairs) as [[x a] h]. cbn [snd] in Hh. subst h.
+    destruct H as [H1 H2]. rewrite H1, commit_abs. split; [reflexivity|apply wf_commit; assumption].
+  - (* Size *)
+    rewrite check_abs. destruct (check_name s sw false); [split; [reflexivity|exact Hwf]|].
+    cbn zeta. rewrite summon_abs, commit_abs, aget_abs_swamp.
+    pose proof (wf_summon s sw Hwf) as Hx. split; [|apply wf_commit; assumption].
+    f_equal. destruct (aget k (recs (summon s sw))) as [r|] eqn:E; cbn [option_map]; [|reflexivity].
+    symmetry. apply size_abs. destruct (wf_swamp_inv _ Hx) as [_ Hall]. eapply aall_aget; eauto.
+  - (* IsValueExist *)
+    rewrite check_abs. destruct (check_name s sw false); [split; [reflexivity|exact Hwf]|].
+    cbn zeta. rewrite summon_abs, commit_abs, aget_abs_swamp.
+    pose proof (wf_summon s sw Hwf) as Hx. split; [|apply wf_commit; assumption].
+    f_equal. destruct (aget k (recs (summon s sw))) as [r|] eqn:E; cbn [option_map]; [|reflexivity].
+    f_equal. symmetry. apply isval_abs. destruct (wf_swamp_inv _ Hx) as [_ Hall]. eapply aall_aget; eauto.
+  - (* Destroy *)
+    rewrite check_abs. destruct (check_name s sw false); [split; [reflexivity|exact Hwf]|].
+    split; [unfold abs; rewrite adel_amap; reflexivity | apply aall_adel; exact Hwf].
+Qed.
